@@ -109,7 +109,7 @@ class Policy:
             key = None
             val = None
             try:
-                key, val = line.split('=')
+                key, val = line.split('=', 1)  # Only split on the first '=', since algorithm names may contain '=' characters as well (i.e.: 'gss-gex-sha1-vz8J1E9PzLr8b1K+0remTg==').
             except ValueError as ve:
                 raise ValueError("could not parse line: %s" % line) from ve
 
